@@ -90,7 +90,8 @@ func (fs *FileSet) File(idx Idx) *File {
 func (fs *FileSet) Position(idx Idx) *Position {
 	for _, file := range fs.files {
 		if idx <= Idx(file.base+len(file.src)) {
-			return file.Position(idx - Idx(file.base))
+			// File.Position takes an index of the set and subtracts its base itself.
+			return file.Position(idx)
 		}
 	}
 
